@@ -610,7 +610,12 @@ def weave_fn(w, item_id, text, spec, log):
     # proofs first (anchors are literal texts in the original body)
     plist = list(spec.get('proofs', []) or [])
     starts = [p for p in plist if p.get('at') == 'start']
-    plist = [p for p in plist if p.get('at') != 'start'] + list(reversed(starts))
+    others = [p for p in plist if p.get('at') != 'start']
+    # several insertions at the same anchor must come out in listing order: "after" entries are
+    # therefore woven last-to-first
+    afters = [p for p in others if 'after' in p or 'after_loop' in p]
+    rest = [p for p in others if not ('after' in p or 'after_loop' in p)]
+    plist = rest + list(reversed(afters)) + list(reversed(starts))
     for p in plist:
         if p.get('at') == 'start':
             toks0 = R.lex(text)
